@@ -367,6 +367,49 @@ class Ctx:
         return 1 if nviol else 0
 
 
+ARITH_LEAN = os.path.join(LEAN, "Mtv", "Gen", "Arith.lean")
+ARITH_THEOREMS = {
+    "C10": ["Mtv.Arith.generateMessageId_is_genId", "Mtv.Arith.generateMessageId_after_2038_negative"],
+    "C05": ["Mtv.Arith.encryptPaddedLen_is_padLen", "Mtv.Arith.encryptPaddedLen_aligned", "Mtv.Arith.tempNeedToAdd_is_tempPadLen"],
+    "C08": ["Mtv.Arith.abridged_length_bytes"],
+    "C04": ["Mtv.Arith.parityMod_is_mod4"],
+}
+
+
+def regen_arith(ctx):
+    """gen_hook (C04 C05 C08 C10): the integer arithmetic of a few functions of the working tree, translated operator by
+    operator into Lean definitions over BitVec 64 (harness/cmd/arithfacts, go/parser) — Mtv/Gen/Arith.lean. The theorems of
+    Mtv/Props/Arith.lean relate them to the hand-written models and are re-checked by the kernel. A failing extraction
+    removes the generated file, so that the proof build fails instead of using stale facts; when the definitions changed
+    and the theorems no longer build, the boundary-table search of lean/Search/Arith.lean names inputs on which the code's
+    arithmetic and the model differ (recorded with the obligation, i.e. in the replay of a violation without a run-time input)."""
+    exe = os.path.join(BUILD, "arithfacts")
+    with Lock("go-arithfacts"):
+        rc, out = run(["go", "build", "-o", exe, "./cmd/arithfacts"], cwd=HARNESS, env=go_env(ctx.repo), timeout=600)
+        if rc == 0:
+            rc, out = run([exe, "-repo", ctx.repo, "-lean", ARITH_LEAN], timeout=120)
+    ctx.obligation("arithfacts: integer arithmetic of GenerateMessageId, ige.Encrypt, EncryptMessageWithTempKeys, abridged "
+                   "WriteMsg, DeserializeEncrypted translated from %s (go/parser)" % ctx.repo, rc == 0, out[-600:])
+    if rc != 0:
+        try:
+            os.remove(ARITH_LEAN)
+        except OSError:
+            pass
+        return False
+    with Lock("lake"):
+        rc2, out2 = run(["lake", "build", "Mtv.Props.Arith"], cwd=LEAN, timeout=1800)
+    if rc2 != 0:
+        with Lock("lake"):
+            run(["lake", "build", "Mtv.Gen.Arith"], cwd=LEAN, timeout=600)
+            rc3, out3 = run(["lake", "env", "lean", "Search/Arith.lean"], cwd=LEAN, timeout=600)
+        found = [l for l in out3.splitlines() if l.startswith("arith-search")]
+        errs = [l for l in out2.splitlines() if "error" in l][:6]
+        ctx.obligation("Mtv.Props.Arith: the arithmetic as written in the working tree equals the models (kernel)", False,
+                       "\n".join(errs + found) or out3[-400:])
+        return False
+    return True
+
+
 def grep_forbidden():
     bad = []
     for root, _, files in os.walk(os.path.join(LEAN, "Mtv")):
